@@ -1,5 +1,5 @@
 """C20 -- violation messages are deterministic and bounded (DESIGN.md 5/C20)."""
-from . import msg
+from . import effects, msg
 
 META = {
     "explanation": "order taint: every loop whose order reaches the message iterates a sorted() value; every interpolated value passes through the contract's own a_repr; decision table of the representability filter and of the _ARGS/_KWARGS hiding; effect analysis: no run-dependent source and no state kept between messages in the call-graph closure of generate_message",
@@ -16,6 +16,7 @@ def run(run, model):
     run.do(msg.args_listed, model, "C20.filter-args")
     run.do(msg.hide_placeholders, model)
     run.do(msg.no_nondeterminism, model)
+    run.do(effects.no_memo, model, "C20.no-memo")
     from . import fwd
     run.do(fwd.forwarding, model, "C20.a-repr-forwarded", ("a_repr",))
     from . import rec
